@@ -1,6 +1,7 @@
 package rules
 
 import (
+	"fmt"
 	"go/ast"
 	"go/token"
 	"go/types"
@@ -346,6 +347,7 @@ func c01(c *core.Ctx) {
 			}
 		}
 	}
+	c01time(c)
 	c01variant(c)
 	c01closure(c)
 }
@@ -660,4 +662,107 @@ func normByte(t string) string {
 		return "uint8"
 	}
 	return t
+}
+
+// c01time: DateTime is the one primitive whose codec is arithmetic. The reader and the writer must use the same epoch
+// offset and the same tick length, and the reader must do its arithmetic in a way that survives values before 1970:
+// the wire value is unsigned, `ts - epoch` wraps for such values, and only conversion to a signed type (directly or
+// after a multiplication, which commutes with the wrap) recovers them — an unsigned division, remainder or shift of
+// the wrapped difference does not.
+func c01time(c *core.Ctx) {
+	c.Rule("C01.time", "Buffer.ReadTime and Buffer.WriteTime use the same 1601→1970 epoch offset, and ReadTime applies no unsigned division, remainder or shift to the epoch-shifted value (which wraps for times before 1970) before it is converted to a signed integer", 2)
+	rd := fn(c, "ua", "Buffer", "ReadTime")
+	wr := fn(c, "ua", "Buffer", "WriteTime")
+	if rd == nil || wr == nil {
+		return
+	}
+	bigConsts := func(f *ssa.Function) (epoch []int64, ticks []int64) {
+		for _, b := range f.Blocks {
+			for _, in := range b.Instrs {
+				bo, ok := in.(*ssa.BinOp)
+				if !ok {
+					continue
+				}
+				for _, side := range []ssa.Value{bo.X, bo.Y} {
+					if k, isK := ssax.ConstInt(side); isK {
+						switch {
+						case k > 1e15 || k < -1e15:
+							epoch = append(epoch, k)
+						case (bo.Op == token.MUL || bo.Op == token.QUO) && k > 1:
+							ticks = append(ticks, k)
+						}
+					}
+				}
+			}
+		}
+		return
+	}
+	re, rt := bigConsts(rd)
+	we, wt := bigConsts(wr)
+	same := len(re) > 0 && len(we) > 0
+	for _, k := range re {
+		if k != we[0] && k != -we[0] {
+			same = false
+		}
+	}
+	for _, k := range we {
+		if len(re) > 0 && k != re[0] && k != -re[0] {
+			same = false
+		}
+	}
+	_, _ = rt, wt
+	c.Ob("C01.time", "ua.Buffer·ReadTime ↔ WriteTime epoch offset", c.P.Pos(rd.Pos()), same, "reader: epoch "+fmt.Sprint(re)+" tick "+fmt.Sprint(rt)+"; writer: epoch "+fmt.Sprint(we)+" tick "+fmt.Sprint(wt))
+	// the epoch-shifted unsigned value and what is done to it
+	bad := ""
+	n := 0
+	for _, b := range rd.Blocks {
+		for _, in := range b.Instrs {
+			sub, ok := in.(*ssa.BinOp)
+			if !ok || sub.Op != token.SUB {
+				continue
+			}
+			if k, isK := ssax.ConstInt(sub.Y); !isK || k < 1e15 {
+				continue
+			}
+			bt, isB := sub.Type().Underlying().(*types.Basic)
+			if !isB || bt.Info()&types.IsUnsigned == 0 {
+				continue // already signed arithmetic
+			}
+			n++
+			seen := map[ssa.Value]bool{}
+			var walk func(v ssa.Value)
+			walk = func(v ssa.Value) {
+				if seen[v] {
+					return
+				}
+				seen[v] = true
+				refs := v.Referrers()
+				if refs == nil {
+					return
+				}
+				for _, r := range *refs {
+					switch x := r.(type) {
+					case *ssa.BinOp:
+						ut, isU := x.Type().Underlying().(*types.Basic)
+						unsignedRes := isU && ut.Info()&types.IsUnsigned != 0
+						if unsignedRes && (x.Op == token.QUO || x.Op == token.REM || x.Op == token.SHR) {
+							bad = ssax.Path(x) + " at " + pos(c, x)
+						}
+						if unsignedRes {
+							walk(x) // still the wrapped value (e.g. * 100)
+						}
+					case *ssa.Phi:
+						walk(x)
+					case *ssa.Convert:
+						if ct, ok := x.Type().Underlying().(*types.Basic); ok && ct.Info()&types.IsUnsigned != 0 {
+							walk(x)
+						}
+					}
+				}
+			}
+			walk(sub)
+		}
+	}
+	c.Ob("C01.time", "ua.Buffer·ReadTime arithmetic survives pre-1970 values", c.P.Pos(rd.Pos()), bad == "", "unsigned division / remainder / shift of the epoch-shifted wire value: "+orNone(bad))
+	_ = n
 }
